@@ -147,9 +147,18 @@ def load_known(pid):
     return {e['key']: e for e in data.get('findings', []) if e['property'] == pid}
 
 
+def evidence_dir():
+    d = os.environ.get('VERIF_EVIDENCE_DIR')
+    if d:
+        return d
+    if os.path.realpath(os.environ.get('VERIF_REPO', '/repo')) != '/repo':
+        return os.path.join(HERE, 'out', 'evidence-scratch')     # self-tests on scratch copies never touch evidence/
+    return os.path.join(HERE, 'evidence')
+
+
 def write_evidence(pid, ev):
-    os.makedirs(os.path.join(HERE, 'evidence'), exist_ok=True)
-    with open(os.path.join(HERE, 'evidence', pid + '.json'), 'w') as f:
+    os.makedirs(evidence_dir(), exist_ok=True)
+    with open(os.path.join(evidence_dir(), pid + '.json'), 'w') as f:
         json.dump(ev, f, indent=1, sort_keys=True, default=repr)
 
 
